@@ -483,6 +483,12 @@ func main() {
 					break
 				}
 			}
+			if len(layer.Features) == 2 {
+				// the feature behind a dropped one is simplified like any other
+				if wl := sp.s.Simplify(ls.Clone()); !orb.Equal(layer.Features[1].Geometry, wl) {
+					c.Failf("mvt-layers-simplify", "%s: the feature following a dropped feature comes back as %v, simplified alone it is %v", sp.name, layer.Features[1].Geometry, wl)
+				}
+			}
 			if len(layer.Features) != 2 || !orb.Equal(layer.Features[0].Geometry, want) {
 				c.Failf("mvt-layers-simplify", "%s: Layers.Simplify kept %d features, first = %v, want 2 and %v", sp.name, len(layer.Features), layer.Features[0].Geometry, want)
 			}
